@@ -1647,6 +1647,304 @@ def rule_stale_loop_value(chk, gp):
 
 
 # ----------------------------------------------------------------------------
+# round 10: default likelihood, per-item memo, twin agreement of _compute_mol_covs
+# ----------------------------------------------------------------------------
+def rule_likelihood_default(chk, gp):
+    fit = gp.method("fit")
+    r = gp.prog.find_method(gp.mod, gp.cls, "compute_likelihood")
+    if r is None:
+        raise core.AnalysisError("compute_likelihood vanished")
+    fn = r[2]
+    cname = gp.cls.name
+    where = cname + ".compute_likelihood"
+
+    def final_chol_arg(f):
+        cs = [x for x in pf.walk_no_nested(f) if isinstance(x, ast.Call) and (pf.call_name(x) or "").split(".")[-1] == "cholesky"
+              and pf.enclosing(x, (ast.For,)) is None and x.args]
+        return cs[-1].args[0] if cs else None
+    karg = final_chol_arg(fit)
+    stored = None
+    if isinstance(karg, ast.Name):
+        for st in pf.walk_no_nested(fit):
+            if isinstance(st, ast.Assign) and isinstance(st.value, ast.Name) and st.value.id == karg.id:
+                for t in st.targets:
+                    if pf.is_self_attr(t):
+                        stored = t.attr
+    if stored is None:
+        raise core.AnalysisError("fit does not store the matrix it factorises on self")
+    xpar = [a.arg for a in fn.args.args if a.arg != "self"]
+    if not xpar:
+        raise core.AnalysisError("compute_likelihood has no hyper-parameter argument")
+    xname = xpar[0]
+    larg = final_chol_arg(fn)
+    inst = "%s: with %s=None the likelihood is evaluated on the matrix fit() factorised (self.%s)" % (where, xname, stored)
+    if larg is None:
+        raise core.AnalysisError("compute_likelihood: factorised matrix not found")
+    good = False
+
+    def is_none_test(t, pol):
+        if isinstance(t, ast.Compare) and isinstance(t.left, ast.Name) and t.left.id == xname and len(t.ops) == 1 \
+                and isinstance(t.comparators[0], ast.Constant) and t.comparators[0].value is None:
+            return (isinstance(t.ops[0], ast.Is) and pol) or (isinstance(t.ops[0], ast.IsNot) and not pol)
+        return False
+    if pf.is_self_attr(larg, stored):
+        good = True
+    if isinstance(larg, ast.Name):
+        for st in pf.walk_no_nested(fn):
+            if isinstance(st, ast.Assign) and any(isinstance(t, ast.Name) and t.id == larg.id for t in st.targets):
+                v = st.value
+                if pf.is_self_attr(v, stored) and any(is_none_test(t, pol) for t, pol, k in cfgm.conditions_at(st)):
+                    good = True
+                if isinstance(v, ast.IfExp) and ((is_none_test(v.test, True) and pf.is_self_attr(v.body, stored))
+                                                 or (is_none_test(v.test, False) and pf.is_self_attr(v.orelse, stored))):
+                    good = True
+    if good:
+        chk.ok("likelihood-default", inst)
+    else:
+        rescale = sorted({n.id for st in pf.walk_no_nested(fn) if isinstance(st, ast.Assign)
+                          for n in ast.walk(st.value) if isinstance(n, ast.Name) and n.id in xpar})
+        chk.violation("likelihood-default", TR, where, "matrix factorised when %s is None" % xname, fn.lineno,
+                      "fit() factorises and stores self.%s, but compute_likelihood(%s=None) does not evaluate the "
+                      "likelihood on that matrix: it rebuilds one from the stored pieces with %s (a default vector and "
+                      "sigma_min are applied on top of the scaling fit already used), so the reported value is not the "
+                      "log marginal likelihood of the fitted system" % (stored, xname, ", ".join(rescale) or "rescaling"),
+                      instance=inst)
+
+
+def _train_methods(gp):
+    seen = set()
+    for m, c in gp.prog.mro(gp.mod, gp.cls):
+        if m.rel != TR:
+            continue
+        for mname, fn in pf.methods(c).items():
+            if mname not in seen:
+                seen.add(mname)
+                yield c, mname, fn
+
+
+def rule_per_item_memo(chk, gp, own_only=False):
+    for c, mname, fn in _train_methods(gp):
+        if own_only and c is not gp.cls:
+            continue
+        where = "%s.%s" % (c.name, mname)
+        for lp in [x for x in pf.walk_no_nested(fn) if isinstance(x, ast.For)]:
+            inside = {id(x) for x in ast.walk(lp)}
+            per_iter = {n.id for n in ast.walk(lp.target) if isinstance(n, ast.Name)}
+            body_defs = {}
+            for x in pf.walk_no_nested(lp):
+                if isinstance(x, (ast.Assign, ast.AugAssign)):
+                    for t in (x.targets if isinstance(x, ast.Assign) else [x.target]):
+                        for n in ast.walk(t):
+                            if isinstance(n, ast.Name) and isinstance(n.ctx, ast.Store):
+                                body_defs.setdefault(n.id, []).append(x)
+            pre_none = set()
+            for x in pf.walk_no_nested(fn):
+                if isinstance(x, ast.Assign) and id(x) not in inside and x.lineno < lp.lineno \
+                        and isinstance(x.value, ast.Constant) and x.value.value is None:
+                    pre_none |= {t.id for t in x.targets if isinstance(t, ast.Name)}
+            for nm in sorted(pre_none & set(body_defs)):
+                guarded = []
+                for st in body_defs[nm]:
+                    for t, pol, k in cfgm.conditions_at(st, stop=lp):
+                        if pol and isinstance(t, ast.Compare) and isinstance(t.left, ast.Name) and t.left.id == nm \
+                                and isinstance(t.ops[0], ast.Is) and isinstance(t.comparators[0], ast.Constant) \
+                                and t.comparators[0].value is None:
+                            guarded.append(st)
+                inst = "%s: %s (None before `for %s`) is not a per-item decision frozen by the first item" % (
+                    where, nm, pf.src(lp.target))
+                if len(guarded) != len(body_defs[nm]) or not guarded:
+                    chk.ok("per-item-memo", inst, nontrivial=False)
+                    continue
+                # what the memoised value depends on
+                deps, todo = set(), []
+                for st in guarded:
+                    todo += [n.id for n in ast.walk(st.value) if isinstance(n, ast.Name)]
+                    for t, pol, k in cfgm.conditions_at(st, stop=lp):
+                        todo += [n.id for n in ast.walk(t) if isinstance(n, ast.Name) and n.id != nm]
+                while todo:
+                    d = todo.pop()
+                    if d in deps:
+                        continue
+                    deps.add(d)
+                    for st2 in body_defs.get(d, []):
+                        if d != nm:
+                            todo += [n.id for n in ast.walk(st2.value) if isinstance(n, ast.Name)]
+                varying = sorted((deps & (per_iter | (set(body_defs) - {nm}))))
+                if varying:
+                    chk.violation("per-item-memo", TR, where, "%s decided once for all items" % nm, guarded[0].lineno,
+                                  "`%s` is None before the loop and is set only `if %s is None`, i.e. by the FIRST item, "
+                                  "from %s, which differ from item to item: the decision taken for the first item is "
+                                  "applied to all later ones, so the result depends on the order of the items"
+                                  % (nm, nm, ", ".join(varying[:4])), instance=inst)
+                else:
+                    chk.ok("per-item-memo", inst + " (lazy initialisation from loop-invariant data)")
+
+
+def _mask_names(fn):
+    out = set()
+    changed = True
+    while changed:
+        changed = False
+        for st in pf.walk_no_nested(fn):
+            if isinstance(st, ast.Assign) and len(st.targets) == 1 and isinstance(st.targets[0], ast.Name) \
+                    and st.targets[0].id not in out:
+                v = st.value
+                is_mask = isinstance(v, ast.Compare) or (
+                    isinstance(v, ast.Call) and (pf.call_name(v) or "").split(".")[-1] in ("logical_and", "logical_or", "logical_not", "isnan")) \
+                    or (isinstance(v, ast.Subscript) and pf.base_name(v) in out) \
+                    or (isinstance(v, ast.BinOp) and isinstance(v.op, (ast.BitAnd, ast.BitOr)))
+                if is_mask:
+                    out.add(st.targets[0].id)
+                    changed = True
+    return out
+
+
+def rule_twin_covs(chk, prog):
+    mod = prog.module(TR)
+    twins = []
+    for cname in ("MOLGP", "MOLGP2"):
+        fn = pf.methods(mod.cls(cname)).get("_compute_mol_covs")
+        if fn is not None:
+            twins.append((cname, fn))
+    if len(twins) < 2:
+        raise core.AnalysisError("the twin _compute_mol_covs of MOLGP / MOLGP2 were not both found")
+    # (a) a per-sample mask sits on the same (last) axis in every masked store of one array, in both twins
+    pos = {}
+    for cname, fn in twins:
+        masks = _mask_names(fn)
+        for st in pf.walk_no_nested(fn):
+            if isinstance(st, ast.Assign) and len(st.targets) == 1 and isinstance(st.targets[0], ast.Subscript):
+                t = st.targets[0]
+                idx = t.slice.elts if isinstance(t.slice, ast.Tuple) else [t.slice]
+                mpos = [i for i, e in enumerate(idx) if pf.base_name(e) in masks]
+                if not mpos:
+                    continue
+                arr = pf.base_name(t)
+                pos.setdefault(arr, []).append((len(idx) - 1 - mpos[-1], cname, st))
+    for arr, sites in sorted(pos.items()):
+        vals = {}
+        for after, cname, st in sites:
+            vals.setdefault(after, []).append((cname, st))
+        inst = "_compute_mol_covs: low-density mask applied to the same axis of %s in all %d stores of both twins" % (arr, len(sites))
+        if len(vals) == 1:
+            chk.ok("twin-covs", inst)
+        else:
+            major = max(vals.items(), key=lambda kv: len(kv[1]))[0]
+            for after, lst in vals.items():
+                if after == major:
+                    continue
+                for cname, st in lst:
+                    chk.violation("twin-covs", TR, cname + "._compute_mol_covs", "mask axis of %s" % arr, st.lineno,
+                                  "`%s` applies the per-sample low-density mask %d position(s) before the end of the index, "
+                                  "while the %d other masked stores of %s (both twins) apply it to the LAST axis (the sample "
+                                  "axis): this store masks the feature axis with a per-sample mask"
+                                  % (pf.src(st)[:70], after, len(vals[major]), arr), instance=inst + " :: " + cname)
+    # (b) dicts whose values are (spin, array) tuples are not sliced like arrays
+    for cname, fn in twins:
+        tupled = set()
+        for x in pf.walk_no_nested(fn):
+            if isinstance(x, ast.For) and isinstance(x.iter, ast.Call) and isinstance(x.iter.func, ast.Attribute) \
+                    and x.iter.func.attr == "items" and isinstance(x.iter.func.value, ast.Name) \
+                    and isinstance(x.target, ast.Tuple) and len(x.target.elts) == 2 and isinstance(x.target.elts[1], ast.Tuple):
+                tupled.add(x.iter.func.value.id)
+        for d in sorted(tupled):
+            uses = [x for x in ast.walk(fn) if isinstance(x, ast.Subscript) and isinstance(x.value, ast.Subscript)
+                    and isinstance(x.value.value, ast.Name) and x.value.value.id == d]
+            inst = "%s._compute_mol_covs: entries of %s, which are (spin, array) pairs, are indexed as pairs" % (cname, d)
+            bad = [x for x in uses if isinstance(x.slice, (ast.Tuple, ast.Slice))]
+            if bad:
+                chk.violation("twin-covs", TR, cname + "._compute_mol_covs", "array slice of a %s entry" % d, bad[0].lineno,
+                              "`%s`: the values of %s are unpacked as `(s, array)` pairs elsewhere in this method "
+                              "(`for orb, (s, ...) in %s.items()`), so slicing the entry itself indexes a tuple with a "
+                              "tuple of slices (TypeError) instead of its array component" % (pf.src(bad[0])[:60], d, d),
+                              instance=inst)
+            else:
+                chk.ok("twin-covs", inst, nontrivial=bool(uses))
+    # (c) inside the per-orbital loop (one spin channel s): per-spin arrays are indexed by s; weights enter once
+    for cname, fn in twins:
+        wt = set()
+        for st in pf.walk_no_nested(fn):
+            if isinstance(st, ast.Assign) and len(st.targets) == 1 and isinstance(st.targets[0], ast.Name):
+                v = st.value
+                if isinstance(v, ast.Subscript) and isinstance(v.value, ast.Name) and v.value.id in wt | {"weights"}:
+                    wt.add(st.targets[0].id)
+                if isinstance(v, ast.Subscript) and pf.src(v.slice) in ("'wt'", '"wt"'):
+                    wt.add(st.targets[0].id)
+        wloc = {w for w in wt if any(isinstance(st, ast.Assign) and isinstance(st.value, ast.Subscript)
+                                     and isinstance(st.value.slice, ast.Slice) and isinstance(st.targets[0], ast.Name)
+                                     and st.targets[0].id == w for st in pf.walk_no_nested(fn))}
+        for lp in [x for x in pf.walk_no_nested(fn) if isinstance(x, ast.For) and isinstance(x.target, ast.Tuple)
+                   and len(x.target.elts) == 2 and isinstance(x.target.elts[1], ast.Tuple)
+                   and isinstance(x.target.elts[1].elts[0], ast.Name) and any(
+                       isinstance(y, ast.AugAssign) for y in pf.walk_no_nested(x))]:
+            svar = lp.target.elts[1].elts[0].id
+            per_spin = set()
+            for x in ast.walk(fn):
+                if isinstance(x, ast.Subscript) and isinstance(x.value, ast.Name):
+                    idx = x.slice.elts if isinstance(x.slice, ast.Tuple) else [x.slice]
+                    if any(isinstance(i, ast.Name) and i.id == svar for i in idx[:2]):
+                        per_spin.add(x.value.id)
+            power = {}
+            for st in lp.body:
+                if isinstance(st, ast.Assign) and len(st.targets) == 1 and isinstance(st.targets[0], ast.Name):
+                    power[st.targets[0].id] = _wt_power(st.value, power, wloc)
+            for st in lp.body:
+                if not isinstance(st, ast.AugAssign):
+                    continue
+                inst = "%s._compute_mol_covs: `%s` uses one spin channel and the quadrature weights once" % (
+                    cname, pf.src(st.target))
+                bare = sorted({n.id for n in ast.walk(st.value) if isinstance(n, ast.Name) and n.id in per_spin
+                               and not (isinstance(pf.parent(n), ast.Subscript) and pf.parent(n).value is n)})
+                p = _wt_power(st.value, power, wloc)
+                if bare:
+                    chk.violation("twin-covs", TR, cname + "._compute_mol_covs", "spin channel in `%s +=`" % pf.src(st.target),
+                                  st.lineno,
+                                  "`%s`: %s is indexed by the spin `%s` everywhere else in this method, but enters this "
+                                  "per-orbital (single-spin) term whole: the term sums over all spin channels"
+                                  % (pf.src(st)[:80], ", ".join(bare), svar), instance=inst + " :: spin")
+                elif p is not None and p != 1:
+                    chk.violation("twin-covs", TR, cname + "._compute_mol_covs", "weights in `%s +=`" % pf.src(st.target),
+                                  st.lineno,
+                                  "`%s` contains the quadrature weights to the power %s; every other integral of the "
+                                  "twin methods contains them exactly once" % (pf.src(st)[:80], p), instance=inst + " :: weights")
+                else:
+                    chk.ok("twin-covs", inst)
+
+
+def _wt_power(e, power, wloc):
+    if isinstance(e, ast.Name):
+        if e.id in wloc:
+            return 1
+        return power.get(e.id)
+    if isinstance(e, ast.BinOp) and isinstance(e.op, ast.Mult):
+        a, b = _wt_power(e.left, power, wloc), _wt_power(e.right, power, wloc)
+        if a is None and b is None:
+            return None
+        return (a or 0) + (b or 0)
+    if isinstance(e, ast.BinOp) and isinstance(e.op, (ast.Add, ast.Sub)):
+        a, b = _wt_power(e.left, power, wloc), _wt_power(e.right, power, wloc)
+        return a if a is not None else b
+    if isinstance(e, ast.Subscript):
+        return _wt_power(e.value, power, wloc)
+    if isinstance(e, ast.Call):
+        last = (pf.call_name(e) or "").split(".")[-1]
+        if isinstance(e.func, ast.Attribute) and e.func.attr in ("sum", "copy", "ravel") and not (pf.call_name(e) or "").startswith("np."):
+            return _wt_power(e.func.value, power, wloc)
+        if last in ("dot", "einsum", "sum", "multiply", "inner"):
+            ps = [_wt_power(a, power, wloc) for a in e.args if not isinstance(a, ast.Constant)]
+            ps = [p for p in ps if p is not None]
+            if isinstance(e.func, ast.Attribute) and not (pf.call_name(e) or "").startswith("np.") and last == "dot":
+                q = _wt_power(e.func.value, power, wloc)
+                if q is not None:
+                    ps.append(q)
+            return sum(ps) if ps else None
+        ps = [_wt_power(a, power, wloc) for a in e.args]
+        ps = [p for p in ps if p is not None]
+        return max(ps) if ps else None
+    return None
+
+
+# ----------------------------------------------------------------------------
 def _analyse_own(chk):
     # statement-level helper calls are inlined one level so that the rules see one body per anchored method
     prog = inline.inlined_program(chk.tree, [TR, DK, XE, XE2])
@@ -1659,6 +1957,9 @@ def _analyse_own(chk):
     chk.rule("loop-carried", "locals feeding the stored rows are (re)defined in every iteration of the reaction loop")
     chk.rule("option-writeback", "an option key of a caller-owned dict is only given plain defaults, never a derived value")
     chk.rule("stale-loop-value", "a value set in every iteration of a loop (without break) is not used after that loop")
+    chk.rule("likelihood-default", "compute_likelihood(x=None) evaluates the likelihood on the matrix fit() factorised")
+    chk.rule("per-item-memo", "a decision that depends on the current item is not memoised across loop iterations")
+    chk.rule("twin-covs", "MOLGP/MOLGP2._compute_mol_covs agree on mask axes, (spin, array) entries, spin channel and weights")
     chk.rule("stored-alias", "add_reactions never accumulates in place into an alias of the stored per-system arrays")
     chk.rule("fit-snapshot", "state stored by fit is not a pre-rescaling copy later combined with post-rescaling state")
     chk.rule("reset-append", "containers read by fit == appended by add_reactions ⊆ emptied by reset_reactions")
@@ -1683,8 +1984,14 @@ def _analyse_own(chk):
         chk.guard(rule_snapshot, gp)
         chk.guard(rule_stored_alias, gp)
         chk.guard(rule_option_writeback, gp)
+        chk.guard(rule_likelihood_default, gp)
+        chk.guard(rule_per_item_memo, gp)
         chk.guard(rule_stale_loop_value, gp)
     chk.guard(rule_memo, prog)
+    for m_, c_ in prog.subclasses("MOLGP"):
+        if c_ is not base and m_.rel == TR and c_ not in targets:
+            chk.guard(rule_per_item_memo, GP(prog, m_, c_), True)
+    chk.guard(rule_twin_covs, prog)
     # the kernel objects start with an empty list too
     dk = prog.module(DK)
     for cname in ("DFTKernel", "DFTKernel2"):
@@ -1701,6 +2008,8 @@ def _analyse_own(chk):
     chk.floor("loop-carried", 2, "rxn_ref, noise, rxn_cov")
     chk.floor("option-writeback", 1, "rxn['unit'] default")
     chk.floor("stale-loop-value", 10, "per-iteration locals of the loops of MOLGP methods")
+    chk.floor("likelihood-default", 1, "MOLGP.compute_likelihood")
+    chk.floor("twin-covs", 6, "masked arrays, tuple dicts, per-orbital accumulations of both twins")
     chk.floor("stored-alias", 1, "MOLGP.add_reactions")
     chk.floor("pairing", 1, "six loops over zip(rxn['structs'], rxn['counts'])")
     chk.floor("fit-snapshot", 2, "Kcov_, K_, alpha_mol_, y_mol_")
@@ -1771,6 +2080,29 @@ def _seed_unit(text):
     return text.replace(b, '                if rxn.get("unit") is not None:\n                    unit = rxn["unit"]\n                rxn_ref += rxn["energy"] * unit\n', 1)
 
 
+
+def _revert_deriv(i):
+    import re as _re
+
+    def fn(text):
+        pat = _re.compile(r"((?: +#.*\n)*)( +)if get_orb_deriv is None:\n +deriv = \"ddesc\" in data\n +else:\n +deriv = get_orb_deriv\n")
+        ms = list(pat.finditer(text))
+        if len(ms) <= i:
+            return None
+        m_ = ms[i]
+        ind = m_.group(2)
+        new = (ind + "if deriv is None:\n" + ind + "    if get_orb_deriv is None:\n" + ind + "        deriv = \"ddesc\" in data\n"
+               + ind + "    else:\n" + ind + "        deriv = get_orb_deriv\n")
+        text = text[:m_.start()] + new + text[m_.end():]
+        # initialise before the loop over the systems
+        loops = list(_re.finditer(r"( +)for (?:i, )?mol_id in (?:enumerate\()?mol_ids\)?:\n", text))
+        if len(loops) <= i:
+            return None
+        lm = loops[i]
+        return text[:lm.start()] + lm.group(1) + "deriv = None\n" + text[lm.start():]
+    return fn
+
+
 def mutants(tree):
     return [
         Mutant("forget rxn_noise_list in reset", TR, "        self.rxn_noise_list = []\n", "", expect="reset-append"),
@@ -1836,6 +2168,18 @@ def mutants(tree):
         Mutant("regulariser sized by the last kernel's M after the loop", TR,
                "K += self.numerical_epsilon * np.identity(noise_nn.size)", "K += self.numerical_epsilon * np.identity(noise_nn.size) * (M > 0)",
                expect="stale-loop-value"),
+        Mutant("default likelihood rebuilt with x=[1,1] and sigma_min", TR,
+               "            Kfull = self.K_\n        else:\n", "            x = np.array([1.0, 1.0])\n        if True:\n", expect="likelihood-default"),
+        Mutant("orbital-derivative decision frozen by the first system (MOLGP)", TR, fn=_revert_deriv(0), expect="per-item-memo"),
+        Mutant("orbital-derivative decision frozen by the first system (MOLGP2)", TR, fn=_revert_deriv(1), expect="per-item-memo"),
+        Mutant("MOLGP2 masks the feature axis", TR, "                            dkdX0T[:, s][:, :, cond[s]] = 0.0\n                            dm[s][:, cond[s]] = 0.0",
+               "                            dkdX0T[:, s, cond[s], :] = 0.0\n                            dm[s][:, cond[s]] = 0.0", expect="twin-covs"),
+        Mutant("MOLGP2 slices the (spin, array) entry", TR, "drho_tmp = wt * drho_data[orb][1][:, i0:i1]", "drho_tmp = wt * drho_data[orb][:, i0:i1]",
+               expect="twin-covs"),
+        Mutant("MOLGP2 baseline term over all spins, weights twice", TR, "dbaseline[orb] += (da[s] * drho_tmp).sum()",
+               "dbaseline[orb] += np.dot(da * drho_tmp, wt)", expect="twin-covs"),
+        Mutant("MOLGP baseline term with weights twice", TR, "dbaseline[orb] += (da[s] * ddesc_tmp).sum()",
+               "dbaseline[orb] += np.dot(da[s] * ddesc_tmp, wt).sum()", expect="twin-covs"),
         Mutant("noise block snapshot before the rescaling", TR, fn=_seed_snapshot, expect="fit-snapshot"),
         Mutant("noise not squared", TR, "        noise_nn = noise_nn**2  # get noise covariance from noise std deviation\n", "",
                expect="fit-system"),
